@@ -109,11 +109,11 @@ def generate(seed, h, tier):
         for ji in range(k):
             seam = fr.pick(["solve", "write", "read"])
             if seam == "solve":
-                faults[str(ji)] = [{"seam": "solve", "at": fr.randrange(9), "kind": fr.pick(["exec", "status:-1", "status:0", "slow"])}]
+                faults[str(ji)] = [{"seam": "solve", "at": fr.randrange(9), "kind": fr.pick(["exec", "status:-1", "status:0", "slow", "iterate:-1"])}]
             elif seam == "write":
                 faults[str(ji)] = [{"seam": "write", "at": fr.randrange(3), "kind": fr.pick(["enospc", "eio", "short"]), "k": fr.randrange(300)}]
             else:
-                faults[str(ji)] = [{"seam": "read", "at": fr.randrange(15), "kind": fr.pick(["enoent", "eio", "parse"])}]
+                faults[str(ji)] = [{"seam": "read", "at": fr.randrange(15), "kind": fr.pick(["enoent", "eio", "parse", "truncated"])}]
     return {"h": h, "cells": cells, "faults": faults}
 
 
